@@ -149,6 +149,25 @@ theorem C16_trans_normalised (e : Nat) (el : Element) (n : Stoch) (g : EDesc) :
       have := C16_normalised_list _ hne
       simpa [List.map_map, Function.comp_def] using this
 
+/-- `{[][<|2|]CC[>], [<|6|]C(N)C[>]; [<]O, [>|3|]F []}`: two repeat units whose `[<]` descriptors weigh 2 and 6, end groups weighing 1 and 3 -/
+private def exObj : Stoch :=
+  { left := { sym := .none, id := none, order := .single }, right := { sym := .none, id := none, order := .single },
+    repeats := [{ tid := 0, natoms := 2, mass := 24, bds := [{ sym := .lt, id := none, order := .single, weight := 2 }, { sym := .gt, id := none, order := .single, atom := 1 }] },
+                { tid := 1, natoms := 3, mass := 38, bds := [{ sym := .lt, id := none, order := .single, weight := 6 }, { sym := .gt, id := none, order := .single, atom := 2 }] }],
+    ends := [{ tid := 2, natoms := 1, mass := 16, bds := [{ sym := .lt, id := none, order := .single }] },
+             { tid := 3, natoms := 1, mass := 19, bds := [{ sym := .gt, id := none, order := .single, weight := 3 }] }],
+    hasDist := true }
+
+/-- the `[>]` descriptor of the first repeat unit (token 0, descriptor 1) -/
+private def exG : EDesc := (elemDescs (.stoch exObj))[1]!
+
+/-- non-vacuity of `C16_inner_normalised` and the values it is about: from `[>]` the graph offers the two `[<]` repeat descriptors with
+2/8 and 6/8 and the one compatible end group with 1 -/
+example : exG.d.trans = none ∧ (∀ x ∈ elemDescs (.stoch exObj), 0 ≤ x.d.weight) ∧
+    attrVals .prob (innerEdges 0 (.stoch exObj) exG) = [1 / 4, 3 / 4] ∧
+    attrVals .termProb (innerEdges 0 (.stoch exObj) exG) = [1] := by
+  refine ⟨by decide +kernel, by decide +kernel, by decide +kernel, by decide +kernel⟩
+
 /-- **C16 (equals the generator's law)**: when the compatible weights are not all equal the probability written on the edge,
 `w / Σ w`, is entry for entry the vector `choose_compatible_weight` hands to the generator (C08_choose_proportional); when
 they are all equal and positive both are `1/k`. -/
